@@ -1,6 +1,40 @@
 //! Shared harness: seeded batch runner (index-owned seeds, worker-count independent results),
 //! panic capture, delta-debugging minimiser, replay files, known-findings matcher, summaries.
 
+/// The harness reports on the *original* standard output; descriptor 1 itself is pointed at /dev/null at
+/// start-up because the subject's debug mode prints lattice dumps with `println!`.
+static OUT_FD: std::sync::atomic::AtomicI32 = std::sync::atomic::AtomicI32::new(1);
+
+pub fn redirect_stdout() {
+    unsafe {
+        let saved = libc::dup(1);
+        let null = libc::open(b"/dev/null\0".as_ptr() as *const libc::c_char, libc::O_WRONLY);
+        if saved >= 0 && null >= 0 {
+            libc::dup2(null, 1);
+            libc::close(null);
+            OUT_FD.store(saved, std::sync::atomic::Ordering::SeqCst);
+        }
+    }
+}
+
+pub fn out_write(s: &str) {
+    let fd = OUT_FD.load(std::sync::atomic::Ordering::SeqCst);
+    let mut b = s.as_bytes();
+    while !b.is_empty() {
+        let n = unsafe { libc::write(fd, b.as_ptr() as *const libc::c_void, b.len()) };
+        if n <= 0 {
+            break;
+        }
+        b = &b[n as usize..];
+    }
+}
+
+#[macro_export]
+macro_rules! outln {
+    () => { $crate::harness::out_write("\n") };
+    ($($a:tt)*) => { $crate::harness::out_write(&(format!($($a)*) + "\n")) };
+}
+
 use crate::clock;
 use serde::de::DeserializeOwned;
 use serde::{Deserialize, Serialize};
@@ -243,15 +277,15 @@ fn spawn_watchdog<E: Engine>(e: &E, o: &Opts, slots: &'static [Slot], known: Vec
             let doc = json!({"format":1,"property":prop,"engine":name,"seed":o.seed,"run":run,"repo_rev":repo_rev(),"case":case,"violation":v});
             let _ = std::fs::write(&path, serde_json::to_vec_pretty(&doc).unwrap());
             if phase != 0 {
-                println!("HARNESS-ERROR: reference model did not terminate in run {} (case in {})", run, path.display());
+                crate::outln!("HARNESS-ERROR: reference model did not terminate in run {} (case in {})", run, path.display());
                 std::process::exit(2);
             }
             if let Some(k) = match_known(&known, prop, name, &v) {
-                println!("KNOWN-FINDING: property={} engine={} {} — {} (batch aborted at run {})", prop, name, v.signature(), k.what, run);
+                crate::outln!("KNOWN-FINDING: property={} engine={} {} — {} (batch aborted at run {})", prop, name, v.signature(), k.what, run);
                 std::process::exit(0);
             }
-            println!("violation: property={} engine={} class=no-termination site=subject run={} (CPU budget {} s exhausted)", prop, name, run, budget_ns / 1_000_000_000);
-            println!("VIOLATION property={} replay={}", prop, path.display());
+            crate::outln!("violation: property={} engine={} class=no-termination site=subject run={} (CPU budget {} s exhausted)", prop, name, run, budget_ns / 1_000_000_000);
+            crate::outln!("VIOLATION property={} replay={}", prop, path.display());
             std::process::exit(1);
         }
     });
@@ -504,7 +538,7 @@ pub fn replay<E: Engine>(e: &E, o: &Opts, path: &Path) -> Outcome {
             let expected = doc["violation"]["class"].as_str().unwrap_or("").to_string()
                 + "@"
                 + doc["violation"]["site"].as_str().unwrap_or("");
-            println!(
+            crate::outln!(
                 "replay: reproduced {} at op {} (recorded: {} at op {}) detail={}",
                 v.signature(),
                 v.op_index,
@@ -512,11 +546,11 @@ pub fn replay<E: Engine>(e: &E, o: &Opts, path: &Path) -> Outcome {
                 doc["violation"]["op_index"],
                 v.detail
             );
-            println!("VIOLATION property={} replay={}", e.property(), path.display());
+            crate::outln!("VIOLATION property={} replay={}", e.property(), path.display());
             Outcome { exit: 1 }
         }
         None => {
-            println!("replay: no violation reproduced from {}", path.display());
+            crate::outln!("replay: no violation reproduced from {}", path.display());
             Outcome { exit: 0 }
         }
     }
@@ -531,7 +565,7 @@ pub fn run_batch<E: Engine>(e: &E, o: &Opts) -> Outcome {
     let t0 = clock::real_now();
     let known = load_known(&o.known);
     let _ = std::fs::create_dir_all(&o.work);
-    println!(
+    crate::outln!(
         "[{}] engine={} property={} VERIF_SEED={} runs={} threads={} tier={}",
         e.name(),
         e.name(),
@@ -628,7 +662,7 @@ pub fn run_batch<E: Engine>(e: &E, o: &Opts) -> Outcome {
         let g = &groups[&sig];
         let (run, v) = &g[0];
         if let Some(k) = match_known(&known, e.property(), e.name(), v) {
-            println!(
+            crate::outln!(
                 "KNOWN-FINDING: property={} engine={} {} ({} of {} runs; first run {}) — {}",
                 e.property(),
                 e.name(),
@@ -644,7 +678,7 @@ pub fn run_batch<E: Engine>(e: &E, o: &Opts) -> Outcome {
         exit = 1;
         let max_report: usize = o.extra.get("max-report").and_then(|s| s.parse().ok()).unwrap_or(4);
         if unknown_reported >= max_report {
-            println!("(further unlisted violation class {} in {} runs not minimised)", sig, g.len());
+            crate::outln!("(further unlisted violation class {} in {} runs not minimised)", sig, g.len());
             continue;
         }
         unknown_reported += 1;
@@ -674,7 +708,7 @@ pub fn run_batch<E: Engine>(e: &E, o: &Opts) -> Outcome {
             }
         }
         let path = if reproduced { write_replay(e, o, *run, &mcase, &mv, before) } else { path };
-        println!(
+        crate::outln!(
             "violation: property={} engine={} class={} site={} run={} op={} runs_affected={} minimised {}→{} bytes in {} execs reproduced={} detail={}",
             e.property(),
             e.name(),
@@ -690,9 +724,9 @@ pub fn run_batch<E: Engine>(e: &E, o: &Opts) -> Outcome {
             mv.detail
         );
         if reproduced {
-            println!("VIOLATION property={} replay={}", e.property(), path.display());
+            crate::outln!("VIOLATION property={} replay={}", e.property(), path.display());
         } else {
-            println!("HARNESS-ERROR: minimised case did not reproduce ({}); treat as harness defect", sig);
+            crate::outln!("HARNESS-ERROR: minimised case did not reproduce ({}); treat as harness defect", sig);
             exit = 2;
         }
         reported.push(json!({"signature": sig, "run": run, "runs": g.len(), "replay": path.display().to_string(), "detail": mv.detail}));
@@ -723,7 +757,7 @@ pub fn run_batch<E: Engine>(e: &E, o: &Opts) -> Outcome {
     if let Some(sp) = &o.summary {
         std::fs::write(sp, serde_json::to_vec_pretty(&summary).unwrap()).expect("write summary");
     }
-    println!(
+    crate::outln!(
         "[{}] done: runs={} wall={:.1}s distinct={} violating_runs={} exit={}",
         e.name(),
         o.runs,
